@@ -48,6 +48,9 @@ type Case struct {
 	DigitPath bool
 	// HyphenPath: the last element of the struct import path is not an identifier ("go-<pkg>_x") and differs from the package name.
 	HyphenPath bool
+	// TypesNamedPkg: the struct package is called `types` (like the framework package the generated file
+	// imports as well) and is addressed through the alias + import_path_overrides form of the README.
+	TypesNamedPkg bool
 	// MixedCasePkg: the struct package has a Go name with capitals (go_package = "<name>Api").
 	MixedCasePkg bool
 	// RawParam, when set, replaces the computed parameter string (C16 error cases).
@@ -89,6 +92,10 @@ func structPkgName(f *ir.File) string {
 // Prepare computes layout-dependent configuration (package names, overrides),
 // the spec, the YAML/param and the request. It does not run anything.
 func (w *Workspace) Prepare(c *Case) {
+	if c.TypesNamedPkg && c.File.Dep == nil {
+		c.File.GoPackage = "types"
+		c.UseOverride = true
+	}
 	if c.MixedCasePkg && c.File.Dep == nil {
 		c.File.GoPackage = c.Name + "Api"
 	}
